@@ -327,6 +327,12 @@ def _translator(k):
     return translate
 
 
+def _expected_keywords(v, k, c):
+    lang = 'fr' if c else None
+    t = lambda m: 'T%d(d|%s|%s)' % (k, lang, m)       # noqa: E731
+    return '<div><p>%s</p><img alt="%s" />%s|%s</div>' % (t('Hello'), t('Logo'), t('obj'), v)
+
+
 def determinism(v: int, n: int, c: bool, v2: int, n2: int, c2: bool) -> bool:
     """
     pre: 0 <= n < 3 and 0 <= n2 < 3 and -2 <= v <= 2 and -2 <= v2 <= 2
@@ -346,9 +352,12 @@ def determinism(v: int, n: int, c: bool, v2: int, n2: int, c2: bool) -> bool:
     r3 = tb.render(**args(v, n, c))
     ok = r1 == r2 and r1 == r3
     # nothing of an earlier render (other arguments) is visible in the next one
-    ta.render(**args(v2, n2, c2))
+    other = ta.render(**args(v2, n2, c2))
     r4 = ta.render(**args(v, n, c))
     ok = ok and r4 == r1
+    if name == 'render-keywords':
+        # ... and each call used the translation function and language it was given
+        ok = ok and r1 == _expected_keywords(v, pick3(n), c) and other == _expected_keywords(v2, pick3(n2), c2)
     if name == 'mutable-args':
         pass
     return _res(ok)
